@@ -853,7 +853,8 @@ WIDE_KINDS = {0: "box", 1: "mutable-vector", 2: "counter-closure"}
 def wide_case(family, kind, n):
     """units of one wide scenario; the units named in `checks` have to evaluate to 0 (number of elements that
     do not hold their own index)"""
-    churn = "(w-churn (* 2 (w-total)))"
+    # twice the heap (bounded: with forced / small-chunk collections the slot vector doubles at every collection)
+    churn = "(w-churn (min 250000 (* 2 (w-total))))"
     if family in ("thread", "kont"):
         if family == "thread":
             body = ("(let ((l (w-list %d %d))) (begin (thread-join! (spawn-native-thread (lambda () (begin (#%%gc-collect) %s 0)))) "
@@ -927,7 +928,9 @@ def run_wide(ck, picks, stats, tag="wide"):
 
 
 def wide_picks(rng, tier, force_all=False):
-    envs = [{}, {"STEEL_JIT": "false"}, {"STEEL_VERIF_GC_CHUNK": "2048"}, {"STEEL_VERIF_GC_EVERY": "2999"},
+    # default geometry (explicit collections), small chunks (threshold-triggered full collections while the container is
+    # being built), periodic forced full collections
+    envs = [{}, {"STEEL_JIT": "false"}, {"STEEL_VERIF_GC_CHUNK": "2048"}, {"STEEL_VERIF_GC_CHUNK": "1024", "STEEL_VERIF_GC_EVERY": "2999"},
             {"STEEL_VERIF_GC_CHUNK": "1024", "STEEL_VERIF_GC_EVERY": "4999", "STEEL_JIT": "false"}]
     if tier == "quick" and not force_all:
         fams = rng.sample(WIDE_FAMILIES, 2)
